@@ -256,12 +256,31 @@ func (ex *Exec) solveOne(o *Obligation, dir string, id string, timeoutS int, tho
 		res.Status, res.Solver, res.Seconds = st, solvers[0].name, time.Since(t0).Seconds()
 		return res
 	}
-	// stage 0: the string-abstracted query, when there is one, is usually decided at once
+	// stage 0: the string-abstracted query, when there is one, is usually decided at once; both z3 versions
+	// race on it (each is several times faster than the other on some goals)
 	if abstractScript != "" && !o.Cover {
-		st0, out0, _ := runSolver(context.Background(), solvers[0], abstractScript, dir, id+"a0", 4)
-		res.Outputs["z3-new(str-abstract)"] = trimOut(out0)
-		if st0 == "unsat" {
-			res.Status, res.Solver, res.Seconds = "unsat", "z3-new(str-abstract)", time.Since(t0).Seconds()
+		ctx0, cancel0 := context.WithCancel(context.Background())
+		type r0 struct{ name, st, out string }
+		ch0 := make(chan r0, 2)
+		for k, sp := range solvers[:2] {
+			sp, k := sp, k
+			go func() {
+				s, out, _ := runSolver(ctx0, sp, abstractScript, dir, fmt.Sprintf("%sa0%d", id, k), 4)
+				ch0 <- r0{sp.name + "(str-abstract)", s, out}
+			}()
+		}
+		won := ""
+		for k := 0; k < 2; k++ {
+			x := <-ch0
+			res.Outputs[x.name] = trimOut(x.out)
+			if x.st == "unsat" && won == "" {
+				won = x.name
+				cancel0()
+			}
+		}
+		cancel0()
+		if won != "" {
+			res.Status, res.Solver, res.Seconds = "unsat", won, time.Since(t0).Seconds()
 			return res
 		}
 	}
@@ -293,11 +312,11 @@ func (ex *Exec) solveOne(o *Obligation, dir string, id string, timeoutS int, tho
 		}()
 	}
 	if abstractScript != "" {
-		for _, sp := range solvers[:2] {
-			sp := sp
+		for k, sp := range solvers {
+			sp, k := sp, k
 			n++
 			go func() {
-				s, out, _ := runSolver(ctx, sp, abstractScript, dir, id+"a", timeoutS)
+				s, out, _ := runSolver(ctx, sp, abstractScript, dir, fmt.Sprintf("%sa%d", id, k), timeoutS)
 				if s != "unsat" {
 					s = "unknown" // a model of the abstraction is not a model of the query
 				}
